@@ -1382,6 +1382,8 @@ class SMPose(SMUserList):
                 return op(left.A, right)
             else:
                 return [op(x, right) for x in left.A]
+        else:
+            raise ValueError('bad operands: %s and %s' % (type(left).__name__, type(right).__name__))
 
 if __name__ == "__main__":
     from spatialmath import SE3
